@@ -105,6 +105,19 @@ def run(ctx, res):
             res.fail("C06 oracle: " + why, s, observed=folded.decode("utf-8", "replace"))
         reqs.append(("foldline", s))
     res.dist("refused folds interleaved (lone surrogate)", n_refused)
+    # the same lines through the list of content lines (what a component serialises with): each line folded exactly as alone
+    for lo in range(0, len(cases), 40):
+        chunk = [(s, f) for (_, s), f in zip(cases[lo:lo + 40], impl[lo:lo + 40]) if s]
+        want = b"".join(f + b"\r\n" for _, f in chunk)
+        res.evaluations += 1
+        try:
+            got = Contentlines([Contentline(s) for s, _ in chunk]).to_ical()
+        except Exception as e:  # noqa: BLE001
+            got = (type(e).__name__ + ": " + str(e)).encode()
+        if got != want and chunk:
+            bad = next((s for s, f in chunk if Contentlines([Contentline(s)]).to_ical() != f + b"\r\n"), chunk[0][0])
+            res.fail("C06 oracle: Contentlines.to_ical folds a line differently from Contentline.to_ical", bad,
+                     observed=Contentlines([Contentline(bad)]).to_ical().decode("utf-8", "replace"))
     # model correspondence: foldline, unfold on the implementation's own output
     if ctx.model:
         outs = ctx.model.batch(reqs)
@@ -134,6 +147,7 @@ def run(ctx, res):
         ev.add("description", "x" * rng.randrange(0, 200) + "€" * rng.randrange(0, 60))
         ev.add("attendee", "mailto:" + "y" * rng.randrange(0, 120) + "@example.com",
                parameters={"CN": "N" * rng.randrange(0, 90) + "é" * rng.randrange(0, 30)})
+        ev.add(rng.choice(["x-e", "x", "x-emoji"]), rng.choice(["\U0001F600", "\U00010348", "€", "é"]) * rng.randrange(0, 40))
         cal = icalendar.Calendar()
         cal.add_component(ev)
         data = cal.to_ical()
